@@ -254,6 +254,14 @@ pub fn run(o: &Opts) -> Report {
                     }
                 }
             }
+            // every field in turn with an empty content (a tag with nothing behind it): whatever is still accepted must keep the tag
+            if n_sys <= (if o.thorough() { 6 } else { 2 }) && nchunks <= 40 {
+                for i in 0..nchunks {
+                    let mut c = msg.chunks.clone();
+                    c[i].content = String::new();
+                    mutants.push((format!("blank:{}", msg.chunks[i].tag), c, false));
+                }
+            }
             for (class, chunks, corrupt) in mutants {
                 let mtags: Vec<String> = chunks.iter().map(|c| c.tag.clone()).collect();
                 let outside = corrupt || !mgen::in_grammar(g, &mtags);
